@@ -500,8 +500,73 @@ func c13Sources(c *Ctx) {
 	}
 }
 
+// c13MapEntryOrders: a map is unordered on the wire: the entries of one content written in every order decode to the
+// same value, each entry to what it decodes to alone (struct values of which some omit the fields others carry, so
+// that nothing left over from one entry can pass for content of the next)
+type c13MV struct {
+	A int32         `thrift:"1"`
+	B string        `thrift:"2"`
+	P *int64        `thrift:"3"`
+	L []int32       `thrift:"4"`
+	M map[int8]bool `thrift:"5"`
+	N *c13MV        `thrift:"6"`
+}
+
+func c13MapEntryOrders(c *Ctx) {
+	seven := int64(7)
+	vals := []c13MV{{A: 5, B: "x", P: &seven, L: []int32{1, 2}, M: map[int8]bool{1: true}, N: &c13MV{A: 9}}, {}, {B: "only b"}, {N: &c13MV{B: "n"}}}
+	perms := [][]int{{0, 1, 2}, {0, 2, 1}, {1, 0, 2}, {1, 2, 0}, {2, 0, 1}, {2, 1, 0}, {0, 1, 3}, {3, 1, 0}, {1, 3, 0}}
+	for _, pn := range protoNames {
+		p := protoOf(pn)
+		hdr := 6
+		if pn == "compact" {
+			hdr = 2
+		}
+		var entry [][]byte
+		var alone []c13MV
+		for i, v := range vals {
+			b, err := thrift.Marshal(p, map[int32]c13MV{int32(i + 1): v})
+			if err != nil || len(b) < hdr {
+				c.SpecError("C13", "cannot encode a one-entry map", fmt.Sprint(err))
+				return
+			}
+			var back map[int32]c13MV
+			if err := thrift.Unmarshal(p, b, &back); err != nil {
+				c.SpecError("C13", "cannot decode a one-entry map", fmt.Sprint(err))
+				return
+			}
+			entry = append(entry, b[hdr:])
+			alone = append(alone, back[int32(i+1)])
+		}
+		one, _ := thrift.Marshal(p, map[int32]c13MV{1: vals[0]})
+		for _, perm := range perms {
+			k := thriftCase{Proto: pn, What: fmt.Sprintf("map entry order %v", perm)}
+			in := append([]byte(nil), one[:hdr]...)
+			if pn == "compact" {
+				in[0] = byte(len(perm))
+			} else {
+				in[hdr-1] = byte(len(perm))
+			}
+			want := map[int32]c13MV{}
+			for _, i := range perm {
+				in = append(in, entry[i]...)
+				want[int32(i+1)] = alone[i]
+			}
+			var got map[int32]c13MV
+			var err error
+			c.Case()
+			c.Eval(1)
+			if pan := protect(func() { err = thrift.Unmarshal(p, in, &got) }); pan != "" || err != nil || !reflect.DeepEqual(got, want) {
+				c.Diverge("C13", "thrift.Unmarshal(map entries in another order)["+pn+"]", fmt.Sprintf("each entry as it decodes alone: %s", showGo(reflect.ValueOf(want))),
+					fmt.Sprintf("%s err=%v %s", showGo(reflect.ValueOf(got)), err, pan), "", k)
+			}
+		}
+	}
+}
+
 func c13Doubles(c *Ctx) {
 	c13Sources(c)
+	c13MapEntryOrders(c)
 	vals := []float64{0, math.Copysign(0, -1), 1, -1, math.Inf(1), math.Inf(-1), math.Float64frombits(0x7ff8000000000001), math.SmallestNonzeroFloat64,
 		-math.SmallestNonzeroFloat64, math.MaxFloat64, -math.MaxFloat64, 0.1, 1e-310}
 	for _, pn := range []string{"binary", "binary-nonstrict", "compact"} {
@@ -558,6 +623,10 @@ func c13Replay(c *Ctx, raw stdjson.RawMessage) {
 	}
 	if strings.HasPrefix(k.What, "source: ") {
 		c13Sources(c)
+		return
+	}
+	if strings.HasPrefix(k.What, "map entry order") {
+		c13MapEntryOrders(c)
 		return
 	}
 	if strings.HasPrefix(k.What, "double bits=") {
@@ -971,12 +1040,38 @@ func c08Run(c *Ctx, k thriftCase) {
 	p := protoOf(k.Proto)
 	t := tStructType(k.Layout)
 	fail := func(api, w, g string) { c.Diverge("C08", api+"["+k.Proto+"]", w, g, "", k) }
+	strictHistory := 0
 	decode := func(b []byte, strict bool) (tree string, err error, pan string) {
 		out := reflect.New(t)
 		pan = protect(func() {
 			if strict {
-				d := thrift.NewDecoder(p.NewReader(bytes.NewReader(b)))
-				d.SetStrict(true)
+				// strict mode is a property of the Decoder: it holds for a new one and, set once, across Reset
+				// (onto a reader of either protocol) and across earlier Decode calls
+				var d *thrift.Decoder
+				switch strictHistory {
+				case 0:
+					d = thrift.NewDecoder(p.NewReader(bytes.NewReader(b)))
+					d.SetStrict(true)
+				case 1:
+					other := thrift.Protocol(&thrift.CompactProtocol{})
+					if k.Proto == "compact" {
+						other = &thrift.BinaryProtocol{}
+					}
+					d = thrift.NewDecoder(other.NewReader(bytes.NewReader(nil)))
+					d.SetStrict(true)
+					d.Reset(p.NewReader(bytes.NewReader(b)))
+				case 2:
+					d = thrift.NewDecoder(p.NewReader(bytes.NewReader([]byte{0})))
+					d.SetStrict(true)
+					var e struct{}
+					d.Decode(&e)
+					d.Reset(p.NewReader(bytes.NewReader(b)))
+				default:
+					d = thrift.NewDecoder(p.NewReader(bytes.NewReader(nil)))
+					d.Reset(p.NewReader(bytes.NewReader(b)))
+					d.SetStrict(false)
+					d.SetStrict(true)
+				}
 				err = d.Decode(out.Interface())
 			} else {
 				err = thrift.Unmarshal(p, b, out.Interface())
@@ -1128,12 +1223,17 @@ func c08Run(c *Ctx, k thriftCase) {
 			if err != nil {
 				continue
 			}
-			c.Eval(1)
-			_, derr, pan := decode(b, true)
-			var tm *thrift.TypeMismatch
-			if pan != "" || !errors.As(derr, &tm) {
-				fail("Decoder.Decode(strict, wrong wire type)", "TypeMismatch", fmt.Sprintf("err=%v %s", derr, pan))
+			for strictHistory = 0; strictHistory < 4; strictHistory++ {
+				c.Eval(1)
+				_, derr, pan := decode(b, true)
+				var tm *thrift.TypeMismatch
+				if pan != "" || !errors.As(derr, &tm) {
+					fail("Decoder.Decode(strict, wrong wire type)", "TypeMismatch", fmt.Sprintf("err=%v %s [%s]", derr, pan,
+						[]string{"new Decoder, SetStrict", "SetStrict, then Reset onto this input", "SetStrict, a Decode, then Reset", "Reset, SetStrict off and on"}[strictHistory]))
+					break
+				}
 			}
+			strictHistory = 0
 		}
 		// the same inside nested values: every struct nested in field i (directly, behind a pointer, as list /
 		// set element, as map key or value) is written with its field 1 as i16 instead of i64
